@@ -27,7 +27,24 @@ from exprgrammar import TranslateError  # noqa: E402
 KINDS = ["EF", "EG", "AF", "AG", "LEADS_TO", "A_UNTIL", "A_WEAK_UNTIL", "PO_CONTROL", "EF_CONTROL", "CONTROL", "CONTROL_TOPT",
          "CONTROL_TOPT_DEF1", "CONTROL_TOPT_DEF2", "SUP_VAR", "INF_VAR", "BOUNDS_VAR"]
 NONTERMINALS = ["SubProperty", "AssignablePropperty", "Property", "PropertyExpr", "SupPrefix", "InfPrefix", "BoundsPrefix", "BracketExprList",
-                "ExpressionList", "NonEmptyExpressionList", "BoolOrKWAnd"]
+                "ExpressionList", "NonEmptyExpressionList", "BoolOrKWAnd", "SMCBounds", "BoundType", "PathType"]
+# the statistical forms print conditionally (optional run count, `<>` / `[]` / `U`, the bound type): their cases and print_bound_type are
+# matched as whole skeletons (white space removed); Model/QuerySmc.lean is the hand-written reading of exactly these texts
+SMC_SKELETONS = {
+    "PROBA_BOX": 'flag=true;[[fallthrough]];',
+    "PROBA_DIAMOND": 'os<<"Pr[";print_bound_type(os,get(1));get(2).print(os,old);if(get(0).get_value()>=0)get(0).print(os<<";",old);'
+                     'if(flag||get(4).is_true()){os<<(flag?"]([]":"](<>");get(3).print(os,old)<<")";}'
+                     'else{get(3).print(os<<"](",old)<<"U";get(4).print(os,old)<<")";}break;',
+    "PROBA_EXP": 'os<<"E[";print_bound_type(os,get(1));get(2).print(os,old);if(get(0).get_value()>=0)get(0).print(os<<";",old);'
+                 'os<<"]("<<(get(3).get_value()?"max:":"min:");get(4).print(os,old)<<")";break;',
+    "SIMULATE": 'os<<"simulate[";print_bound_type(os,get(1));get(2).print(os,old)<<";";get(0).print(os,old)<<"]{";nb=get_size()-3;'
+                'if(nb>0){get(3).print(os,old);for(inti=1;i<nb;++i)get(3+i).print(os<<",",old);}os<<"}";break;',
+}
+BOUND_TYPE_SKELETON = ('if(e.get_kind()==CONSTANT){assert(e.get_type().is(Constants::INT));if(e.get_value()==0){os<<"#";}}'
+                       'else{e.print(os,false);}os<<"<=";returnos;')
+# the literals of those texts, by the name the Lean printer uses for them
+SMC_LITERALS = {"pr": "Pr[", "runs": "; ", "box": "]([] ", "diamond": "](<> ", "untilOpen": "](", "until": " U ", "close": ")", "ex": "E[",
+                "exOpen": "] (", "colon": ":", "sim": "simulate[", "simOpen": "] {", "comma": ", ", "simClose": "}", "steps": "#", "leq": "<="}
 LIST_SKELETON = "if(get_size()>0){get(0).print(os,old);for(uint32_ti=1;i<get_size();i++)get(i).print(os<<\",\",old);}break;"
 
 
@@ -128,6 +145,11 @@ def lex_literal(text, lits, kws, singles):
 def extract(repo="/repo"):
     G = exprgrammar.extract(repo)
     lits = [(l, t) for l, t in G["literals"]]
+    if not any(l == ";" for l, _ in lits):
+        # (the literal table of exprgrammar.py reads `return X;` up to the first `;` and so misses this one rule)
+        if not re.search(r'^";"\s*\{\s*return\s*\';\';\s*\}', open(os.path.join(repo, "src", "lexer.l")).read(), re.M):
+            raise TranslateError("lexer.l: rule for `;` not found")
+        lits.append((";", "';'"))
     kws = {w: t for w, t, syn in G["keywords"] if "PROPERTY" in syn}
     lx = open(os.path.join(repo, "src", "lexer.l")).read()
     singles = set(re.findall(r'^"([A-Z])"\s*\{[^\n]*return \'\1\';\s*\}', lx, re.M))
@@ -158,6 +180,16 @@ def extract(repo="/repo"):
         for l in wanted:
             # labels that share the body but come before a flag assignment would be handled here; none of KINDS does
             layouts[l] = items
+    for gi, (labels, code) in enumerate(groups):
+        for l in labels:
+            if l in SMC_SKELETONS and re.sub(r"\s+", "", code) != SMC_SKELETONS[l] and not (len(labels) > 1 and l != labels[-1]):
+                raise TranslateError("print case %s is not the text the statistical query model was written from: %r" % (l, re.sub(r"\s+", "", code)[:300]))
+    seen = {l for labels, _ in groups for l in labels}
+    if not set(SMC_SKELETONS) <= seen:
+        raise TranslateError("print cases not found: %r" % sorted(set(SMC_SKELETONS) - seen))
+    bt = printer.body_of(src, r"std::ostream&\s*expression_t::print_bound_type\s*\(\s*std::ostream&\s*os\s*,\s*expression_t\s+e\s*\)\s*const\s*\{")
+    if re.sub(r"\s+", "", bt) != BOUND_TYPE_SKELETON:
+        raise TranslateError("print_bound_type is not the text the statistical query model was written from: %r" % re.sub(r"\s+", "", bt)[:300])
     missing = [k for k in KINDS + ["LIST"] if k not in layouts]
     if missing:
         raise TranslateError("print cases not found: %r" % missing)
@@ -188,8 +220,11 @@ def extract(repo="/repo"):
                 qtoks += it[2]
     for nt, syms, _ in prods:
         qtoks += [s for s in syms if s.startswith("'") or s.startswith("T_")]
+    smclits = {nm: lex_literal(txt, lits, kws, singles) for nm, txt in SMC_LITERALS.items()}
+    for v in smclits.values():
+        qtoks += v
     pk = sorted((w, t) for w, t in kws.items() if t in set(qtoks))
-    return dict(layouts=lay2, prods=prods, qtoks=sorted(set(qtoks)), propkw=pk, singles=sorted(singles))
+    return dict(layouts=lay2, prods=prods, qtoks=sorted(set(qtoks)), propkw=pk, singles=sorted(singles), smclits=smclits)
 
 
 def lean_str(s):
@@ -216,6 +251,9 @@ def emit(Q):
                         for nt, syms, calls in Q["prods"]))
     o += ["]", "", "/-- terminals that occur in the layouts and productions above -/",
           "def queryTokNames : List String := [%s]" % ", ".join(lean_str(t) for t in Q["qtoks"]), "",
+          "/-- the literals written by the print cases of the statistical queries (PROBA_BOX / PROBA_DIAMOND / PROBA_EXP / SIMULATE) and by",
+          "    print_bound_type, by role, as terminals; the cases themselves were matched as whole texts by the translator -/",
+          "def smcLits : List (String × List String) := [%s]" % ", ".join("(%s, [%s])" % (lean_str(k), ", ".join(lean_str(t) for t in v)) for k, v in Q["smclits"].items()), "",
           "/-- words of keywords.cpp that are keywords in the property syntax and occur above: (word, terminal) -/",
           "def propertyKeywords : List (String × String) := [%s]" % ", ".join("(%s, %s)" % (lean_str(w), lean_str(t)) for w, t in Q["propkw"]), "",
           "/-- the one-letter rules of lexer.l (`\"A\" { .. return 'A'; }`) -/",
